@@ -1,11 +1,11 @@
 (* C11 Tier 1 - slalom: the program solve_slalom_model builds has exactly the rule-obeying loops as its answer-key
    readings, for every board in the puzzle's format (Rules_slalom.slalom_wf).
      part 1  what the posted constraints mean along the loop (soundness): passed = "on the loop", loop_dir orients the
-             loop consistently, gate_ord counts the gates from the start; hence every admitted loop obeys the rules
+             loop consistently, gate_ord counts the gates from the start; hence every loop the program accepts obeys the rules
      part 2  values of loop_dir / passed / gate_ord for a rule-obeying loop (completeness)
      part 3  slalom_exact through SlalomCompose.sl_compose (C06) *)
 From Coq Require Import ZArith List Bool Arith Lia.
-From Cspuz Require Import Lib.PyErr Core.Expr Core.Program Graph.GraphModel Graph.Cycle
+From Cspuz Require Import Lib.PyErr Core.Expr Core.Program Graph.GraphModel Graph.Cycle Graph.CycleLemmas
      Puzzle.PuzzleBase Puzzle.SatAbs Puzzle.ModelBase Puzzle.ModelLemmas Puzzle.CycleFrameBase Puzzle.CycleCompose
      Puzzle.CycleLattice Puzzle.Rules_slalom Puzzle.Slalom Puzzle.SlalomCompose Puzzle.SlalomWalk Puzzle.SlalomSem
      Puzzle.SlalomLemmas.
@@ -461,3 +461,584 @@ Section Sound.
         exact H.
   Qed.
 End Sound.
+
+(* ------------------------------------------------------------------------------------------------------ *)
+(* 2. completeness                                                                                         *)
+Lemma cell_sem_pair en h w base oy ox black gs c :
+  cell_sem en h w base oy ox black gs c = cell_sem en h w base oy ox black gs (fst c, snd c).
+Proof. destruct c; reflexivity. Qed.
+
+Section Complete.
+  Variables (fh fw G base : nat) (o : cell) (black gs : list Z) (on : nat -> bool) (d0 : nat).
+  Let h := S fh.
+  Let w := S fw.
+  Let N := frame_n fh fw.
+  Let L := lattice h w.
+  Let sg (c : cell) (d : nat) : bool := seg h w on (fst c) (snd c) d.
+  Let onb' := onb fh fw.
+  Let dirs (c : cell) := sl_dirs h w (fst c) (snd c).
+  Let vis (c : cell) := on_line L on (cix fw c).
+  Let isg := is_gate_cell gs.
+
+  Hypothesis Hloop : single_loop_b L on = true.
+  Hypothesis HG : G = n_gates gs.
+  Hypothesis WF : sl_wf_facts h w o black gs.
+  (* the rules *)
+  Hypothesis Hvo : vis o = true.
+  Hypothesis Hblack : forall c, onb' c -> at2 black w (fst c) (snd c) <> 0%Z -> vis c = false.
+  Hypothesis Hgates : forall k, k < G -> count vis (gate_cells gs k) = 1.
+  Hypothesis Hd0 : d0 < 4.
+  Hypothesis Hs0 : sg o d0 = true.
+  Let F := sl_F fh fw on o d0.
+  Let cs := map fst (sl_walkd fh fw on o (h * w) (stepc o d0) d0).
+  Let met := filter isg cs.
+  Hypothesis Hord : forall k, k < G -> (1 <= gate_field gs k 4)%Z ->
+    exists c, nth_error met (zn (gate_field gs k 4) - 1) = Some c /\ In c (gate_cells gs k).
+
+  Lemma cmp_o_onb : onb' o.
+  Proof. destruct WF as [[H1 H2] _ _ _ _]. split; [exact H1|exact H2]. Qed.
+  Lemma cmp_o_pos : 0 < deg4 fh fw on o.
+  Proof. apply (on_line_pos fh fw on o cmp_o_onb). exact Hvo. Qed.
+  Lemma cmp_deg c : onb' c -> deg4 fh fw on c = 0 \/ deg4 fh fw on c = 2.
+  Proof. apply (proj1 (sl_loop_facts fh fw on o Hloop cmp_o_onb cmp_o_pos)). Qed.
+  Lemma cmp_conn c : onb' c -> 0 < deg4 fh fw on c -> reach L all_vertices_ok on (cix fw o) (cix fw c).
+  Proof. apply (proj2 (sl_loop_facts fh fw on o Hloop cmp_o_onb cmp_o_pos)). Qed.
+
+  Lemma cmp_F_all a da : In (a, da) F -> da < 4 /\ onb' a /\ sg a da = true.
+  Proof. apply (sl_F_all fh fw on o d0 cmp_o_onb Hd0 Hs0 cmp_deg). Qed.
+  Lemma cmp_F_nodup : NoDup (map fst F).
+  Proof. apply (sl_F_nodup fh fw on o d0 cmp_o_onb Hd0 Hs0 cmp_deg). Qed.
+
+  Lemma cmp_cs_nodup : NoDup cs /\ ~ In o cs.
+  Proof. pose proof cmp_F_nodup as H. change (map fst F) with (o :: cs) in H. inversion H; subst. split; assumption. Qed.
+
+  Lemma cmp_cs_onb c : In c cs -> onb' c.
+  Proof.
+    intros Hc. unfold cs in Hc. apply in_map_iff in Hc. destruct Hc as [[c' dc] [<- Hin]].
+    destruct (cmp_F_all c' dc (or_intror Hin)) as [_ [H _]]. exact H.
+  Qed.
+
+  Lemma cmp_F_vis a da : In (a, da) F -> vis a = true.
+  Proof.
+    intros H. destruct (cmp_F_all a da H) as [Hda [Hoa Hsa]].
+    apply (on_line_pos fh fw on a Hoa). apply (deg4_pos fh fw on a da Hda Hsa).
+  Qed.
+
+  Lemma cmp_cover c : onb' c -> vis c = true -> In c (o :: cs).
+  Proof.
+    intros Hc Hv. change (o :: cs) with (map fst F).
+    apply (sl_F_cover fh fw on o d0 cmp_o_onb Hd0 Hs0 cmp_deg cmp_conn c Hc). apply (on_line_pos fh fw on c Hc). exact Hv.
+  Qed.
+
+  (* ---- the values of the auxiliary variables *)
+  Definition cmp_dirv (e : nat) : bool :=
+    existsb (fun q : cell * nat => Nat.eqb (sl_edge fh fw (fst (fst q)) (snd (fst q)) (snd q)) e && sl_flag (snd q)) F.
+  Definition cmp_ordv (idx : nat) : Z :=
+    match cpos fw idx cs with Some i => Z.of_nat (count isg (firstn (S i) cs)) | None => 0%Z end.
+  Definition cmp_later : env :=
+    {| eb := fun i => on_line L on (i - (base + h * w)); ei := fun i => cmp_ordv (i - base) |}.
+  Let ordc (c : cell) : Z := cmp_ordv (cix fw c).
+
+  Lemma cmp_dirv_F c d : In (c, d) F -> cmp_dirv (sl_edge fh fw (fst c) (snd c) d) = sl_flag d.
+  Proof.
+    intros Hin. destruct (sl_flag d) eqn:Ef.
+    - apply existsb_exists. exists (c, d). split; [exact Hin|]. cbn [fst snd]. rewrite Nat.eqb_refl, Ef. reflexivity.
+    - destruct (cmp_dirv _) eqn:E; [|reflexivity]. exfalso.
+      apply existsb_exists in E. destruct E as [[c' d'] [Hin' E]]. cbn [fst snd] in E.
+      apply andb_prop in E. destruct E as [E Ef']. apply Nat.eqb_eq in E.
+      destruct (cmp_F_all c d Hin) as [Hd [Hoc Hsc]]. destruct (cmp_F_all c' d' Hin') as [Hd' [Hoc' Hsc']].
+      destruct (sl_edge_inj fh fw on c d c' d' Hoc Hoc' Hd Hd' Hsc Hsc' (eq_sym E)) as [[-> ->]|[-> ->]].
+      + congruence.
+      + destruct (sl_F_succ fh fw on o d0 cmp_o_onb Hd0 Hs0 cmp_deg c d Hin) as [db [Hb Hne]].
+        pose proof (nodup_fst_unique _ _ _ _ cmp_F_nodup Hb Hin') as Edb. contradiction.
+  Qed.
+
+  Lemma cmp_ordc_nth i c : nth_error cs i = Some c -> ordc c = Z.of_nat (count isg (firstn (S i) cs)).
+  Proof.
+    intros Hi. unfold ordc, cmp_ordv. rewrite (cpos_nth fh fw cs (proj1 cmp_cs_nodup) cmp_cs_onb i c Hi). reflexivity.
+  Qed.
+  Lemma cmp_ordc_out c : onb' c -> ~ In c cs -> ordc c = 0%Z.
+  Proof. intros Hc Hn. unfold ordc, cmp_ordv. rewrite (cpos_none fh fw cs c cmp_cs_onb Hc Hn). reflexivity. Qed.
+
+  Lemma cmp_met_le : length met <= G.
+  Proof.
+    set (gate_of := fun c : cell => match find (fun k => in_gate gs k c) (seq 0 G) with Some k => k | None => 0 end).
+    assert (Hof : forall c, In c met -> gate_of c < G /\ In c (gate_cells gs (gate_of c)) /\ vis c = true).
+    { intros c Hc. apply filter_In in Hc. destruct Hc as [Hcs Hg].
+      apply is_gate_cell_spec in Hg. destruct Hg as [k [Hk Hin]]. rewrite <- HG in Hk.
+      destruct (find_some_seq (fun k => in_gate gs k c) G k Hk Hin) as [k' [E [Hk' Hin']]].
+      unfold gate_of. rewrite E. split; [exact Hk'|]. split; [apply cell_in_In; exact Hin'|].
+      unfold cs in Hcs. apply in_map_iff in Hcs. destruct Hcs as [[c' dc] [<- Hq]]. apply (cmp_F_vis c' dc). right. exact Hq. }
+    assert (Hnd : NoDup (map gate_of met)).
+    { apply NoDup_map_inj_on; [apply NoDup_filter; exact (proj1 cmp_cs_nodup)|].
+      intros a b Ha Hb E. destruct (Hof a Ha) as [Hka [Hina Hva]]. destruct (Hof b Hb) as [_ [Hinb Hvb]].
+      rewrite <- E in Hinb. apply (count_one_unique vis _ a b (Hgates _ Hka) Hina Hinb Hva Hvb). }
+    assert (Hincl : incl (map gate_of met) (seq 0 G)).
+    { intros k Hk. apply in_map_iff in Hk. destruct Hk as [c [<- Hc]]. apply in_seq. destruct (Hof c Hc). lia. }
+    pose proof (NoDup_incl_length Hnd Hincl) as H. rewrite map_length, seq_length in H. exact H.
+  Qed.
+
+  Lemma cmp_ordv_bounds idx : (0 <= cmp_ordv idx <= Z.of_nat G)%Z.
+  Proof.
+    unfold cmp_ordv. destruct (cpos fw idx cs) as [i|]; [|lia].
+    pose proof (count_firstn_le isg cs (S i)) as H1. pose proof cmp_met_le as H2.
+    unfold met in H2. rewrite <- count_filter_length in H2. lia.
+  Qed.
+
+  (* ---- an assignment carrying those values *)
+  Variable en : env.
+  Hypothesis Hlow : forall k, k < N -> eb en k = on k.
+  Hypothesis Hdir : forall k, k < N -> eb en (N + k) = cmp_dirv k.
+  Hypothesis Hlat : forall i, base <= i -> eb en i = eb cmp_later i /\ ei en i = ei cmp_later i.
+  Let pv := sl_pv en h w base.
+  Let ov := sl_ov en w base.
+  Let ins (c : cell) (d : nat) := in_sem en h w (fst c) (snd c) d.
+  Let outs (c : cell) (d : nat) := out_sem en h w (fst c) (snd c) d.
+
+  Lemma cmp_pv c : pv c = vis c.
+  Proof.
+    unfold pv, sl_pv, sl_pid. destruct (Hlat (base + h * w + cidx w c) ltac:(lia)) as [E _]. rewrite E. simpl.
+    unfold vis, cix, cidx. f_equal. unfold w. lia.
+  Qed.
+  Lemma cmp_ov c : ov c = ordc c.
+  Proof.
+    unfold ov, sl_ov. destruct (Hlat (base + cidx w c) ltac:(lia)) as [_ E]. rewrite E. simpl.
+    unfold ordc, cix, cidx. f_equal. unfold w. lia.
+  Qed.
+
+  Lemma cmp_ins c d : onb' c -> In d (dirs c) ->
+    ins c d = sg c d && xorb (cmp_dirv (sl_edge fh fw (fst c) (snd c) d)) (sl_flag d).
+  Proof.
+    intros Hc Hd. unfold ins, in_sem. replace (h - 1) with fh by (unfold h; lia). replace (w - 1) with fw by (unfold w; lia).
+    pose proof (sl_edge_lt_dirs fh fw (fst c) (snd c) d (proj1 Hc) (proj2 Hc) Hd) as Hlt.
+    unfold sl_lp, sl_dr. replace (h - 1) with fh by (unfold h; lia). replace (w - 1) with fw by (unfold w; lia).
+    fold N. rewrite Hlow, Hdir by exact Hlt. f_equal. symmetry. apply (seg_edge_on fh fw on c d Hd).
+  Qed.
+  Lemma cmp_outs c d : onb' c -> In d (dirs c) ->
+    outs c d = sg c d && Bool.eqb (cmp_dirv (sl_edge fh fw (fst c) (snd c) d)) (sl_flag d).
+  Proof.
+    intros Hc Hd. unfold outs, out_sem. replace (h - 1) with fh by (unfold h; lia). replace (w - 1) with fw by (unfold w; lia).
+    pose proof (sl_edge_lt_dirs fh fw (fst c) (snd c) d (proj1 Hc) (proj2 Hc) Hd) as Hlt.
+    unfold sl_lp, sl_dr. replace (h - 1) with fh by (unfold h; lia). replace (w - 1) with fw by (unfold w; lia).
+    fold N. rewrite Hlow, Hdir by exact Hlt. f_equal. symmetry. apply (seg_edge_on fh fw on c d Hd).
+  Qed.
+
+  (* a cell off the loop: nothing goes in or out *)
+  Lemma cmp_off c d : onb' c -> vis c = false -> In d (dirs c) -> ins c d = false /\ outs c d = false.
+  Proof.
+    intros Hc Hv Hd. rewrite cmp_ins, cmp_outs by assumption.
+    assert (Hs : sg c d = false).
+    { destruct (sg c d) eqn:E; [|reflexivity]. exfalso.
+      assert (Hp : 0 < deg4 fh fw on c) by (apply (deg4_pos fh fw on c d); [eapply sl_dirs_lt; exact Hd|exact E]).
+      apply (on_line_pos fh fw on c Hc) in Hp. unfold vis, L, h, w in Hv. congruence. }
+    rewrite Hs. split; reflexivity.
+  Qed.
+
+  (* a cell of the loop, its dart (c, dc) and the dart (a, da) leading to it: in through opposite da, out through dc *)
+  Lemma cmp_on c dc a da d : In (c, dc) F -> In (a, da) F -> stepc a da = c -> In d (dirs c) ->
+    ins c d = Nat.eqb d (opposite da) /\ outs c d = Nat.eqb d dc.
+  Proof.
+    intros Hc Ha Hst Hd.
+    destruct (cmp_F_all c dc Hc) as [Hdc [Hoc Hsc]]. destruct (cmp_F_all a da Ha) as [Hda [Hoa Hsa]].
+    pose proof (sl_dirs_lt _ _ _ _ _ Hd) as Hd4.
+    assert (Hback : sg c (opposite da) = true) by (rewrite <- Hst; apply (seg_sym fh fw on a da Hoa Hda Hsa)).
+    assert (Hne : dc <> opposite da).
+    { intros E. destruct (sl_F_succ fh fw on o d0 cmp_o_onb Hd0 Hs0 cmp_deg c dc Hc) as [db [Hb Hnb]].
+      assert (Ec : stepc c dc = a) by (rewrite E, <- Hst; apply (step_back fh fw on a da Hda Hsa)).
+      rewrite Ec in Hb. pose proof (nodup_fst_unique _ _ _ _ cmp_F_nodup Hb Ha) as Edb. subst db.
+      apply Hnb. rewrite E. rewrite opposite_inv by exact Hda. reflexivity. }
+    rewrite cmp_ins, cmp_outs by assumption.
+    destruct (sg c d) eqn:Es.
+    - destruct (sl_F_dirs fh fw on o d0 cmp_o_onb Hd0 Hs0 cmp_deg c dc a da d Hc Ha Hst Hd4 Es) as [->| ->].
+      + rewrite (cmp_dirv_F c dc Hc). rewrite Nat.eqb_refl.
+        replace (Nat.eqb dc (opposite da)) with false by (symmetry; apply Nat.eqb_neq; exact Hne).
+        destruct (sl_flag dc); split; reflexivity.
+      + assert (Ee : sl_edge fh fw (fst c) (snd c) (opposite da) = sl_edge fh fw (fst a) (snd a) da)
+          by (rewrite <- Hst; apply (sl_edge_back fh fw on a da Hda Hsa)).
+        rewrite Ee, (cmp_dirv_F a da Ha).
+        rewrite (sl_flag_opposite da Hda), Nat.eqb_refl.
+        replace (Nat.eqb (opposite da) dc) with false by (symmetry; apply Nat.eqb_neq; intros E; apply Hne; symmetry; exact E).
+        destruct (sl_flag da); split; reflexivity.
+    - cbn [andb]. split; symmetry; apply Nat.eqb_neq; intros ->; congruence.
+  Qed.
+  Lemma cmp_F_index i c : nth_error cs i = Some c ->
+    exists dc a da, nth_error F (S i) = Some (c, dc) /\ nth_error F i = Some (a, da) /\ stepc a da = c /\
+                    nth_error (o :: cs) i = Some a.
+  Proof.
+    intros Hi. assert (E : o :: cs = map fst F) by reflexivity.
+    assert (H1 : nth_error (map fst F) (S i) = Some c) by (rewrite <- E; exact Hi).
+    rewrite nth_error_map in H1. destruct (nth_error F (S i)) as [[c' dc]|] eqn:E1; [|discriminate].
+    simpl in H1. inversion H1; subst c'.
+    destruct (nth_error F i) as [[a da]|] eqn:E0.
+    2:{ apply nth_error_None in E0. assert (S i < length F) by (apply nth_error_Some; rewrite E1; discriminate). lia. }
+    exists dc, a, da. split; [reflexivity|]. split; [reflexivity|].
+    destruct (sl_F_chain fh fw on o d0 cmp_o_onb Hd0 Hs0 cmp_deg i a da c dc E0 E1) as [Hst _]. split; [exact Hst|].
+    rewrite E, nth_error_map, E0. reflexivity.
+  Qed.
+
+  Lemma cmp_ordc_o : ordc o = 0%Z.
+  Proof. apply cmp_ordc_out; [exact cmp_o_onb|exact (proj2 cmp_cs_nodup)]. Qed.
+
+  (* gate_ord of the cell before position i *)
+  Lemma cmp_ordc_prev i a : nth_error (o :: cs) i = Some a -> ordc a = Z.of_nat (count isg (firstn i cs)).
+  Proof.
+    destruct i as [|i]; simpl; intros H.
+    - inversion H; subst a. apply cmp_ordc_o.
+    - apply cmp_ordc_nth. exact H.
+  Qed.
+
+  Lemma cmp_numbered c n : onb' c -> vis c = true -> sl_gate_id gs c = Some n -> (1 <= n)%Z -> ordc c = n.
+  Proof.
+    intros Hc Hv Hid Hn. apply sl_gate_id_inv in Hid. destruct Hid as [k [Hk [Hin ->]]]. rewrite <- HG in Hk.
+    apply cell_in_In in Hin.
+    destruct (Hord k Hk Hn) as [c' [Hnth Hin']].
+    assert (Hm : In c' met) by (apply nth_error_In in Hnth; exact Hnth).
+    pose proof Hm as Hm'. apply filter_In in Hm'. destruct Hm' as [Hcs' _].
+    assert (Hv' : vis c' = true).
+    { unfold cs in Hcs'. apply in_map_iff in Hcs'. destruct Hcs' as [[c2 dc] [<- Hq]]. apply (cmp_F_vis c2 dc). right. exact Hq. }
+    assert (c = c') by (apply (count_one_unique vis _ c c' (Hgates k Hk) Hin Hin' Hv Hv')). subst c'.
+    destruct (In_nth_error _ _ Hcs') as [i Hi].
+    rewrite (cmp_ordc_nth i c Hi).
+    rewrite (filter_index isg cs i (zn (gate_field gs k 4) - 1) c (proj1 cmp_cs_nodup) Hi Hnth).
+    unfold zn. lia.
+  Qed.
+
+  Lemma cmp_cell c : onb' c -> cell_sem en h w base (fst o) (snd o) black gs c = true.
+  Proof.
+    intros Hc. destruct (vis c) eqn:Hv.
+    - (* on the loop *)
+      assert (Hnb : at2 black w (fst c) (snd c) = 0%Z).
+      { destruct (Z.eq_dec (at2 black w (fst c) (snd c)) 0) as [E|E]; [exact E|]. rewrite (Hblack c Hc E) in Hv. discriminate. }
+      destruct (cmp_cover c Hc Hv) as [Eo|Hcs].
+      + (* the start *)
+        subst c. destruct sl_F_last with (fh := fh) (fw := fw) (on := on) (o := o) (d0 := d0) as [z [dz [Hl [Hz Hdz]]]];
+          try assumption; try exact cmp_o_onb; try exact cmp_deg.
+        assert (HoF : In (o, d0) F) by (left; reflexivity).
+        assert (HzF : In (z, dz) F) by (apply nth_error_In with (length (sl_F fh fw on o d0) - 1); exact Hl).
+        destruct (cmp_F_all z dz HzF) as [Hdz4 [Hoz Hsz]].
+        assert (Hback : sg o (opposite dz) = true) by (rewrite <- Hz; apply (seg_sym fh fw on z dz Hoz Hdz4 Hsz)).
+        rewrite cell_sem_pair. unfold cell_sem.
+        rewrite Hnb. cbn [Z.eqb negb]. rewrite !Nat.eqb_refl. cbn [andb]. rewrite andb_true_r.
+        fold pv. rewrite <- surjective_pairing, cmp_pv, Hv. apply andb_true_iff. split; apply Z.eqb_eq; change 1%Z with (Z.of_nat 1); f_equal.
+        * apply (count_one_dirs (ins o) (dirs o) (opposite dz) (sl_dirs_nodup _ _ _ _)).
+          -- apply (seg_in_dirs fh fw on o); [apply opposite_lt; exact Hdz4|exact Hback].
+          -- rewrite (proj1 (cmp_on o d0 z dz (opposite dz) HoF HzF Hz
+                      (seg_in_dirs fh fw on o _ (opposite_lt _ Hdz4) Hback))). apply Nat.eqb_refl.
+          -- intros b Hb Hib. rewrite (proj1 (cmp_on o d0 z dz b HoF HzF Hz Hb)) in Hib. apply Nat.eqb_eq in Hib. exact Hib.
+        * apply (count_one_dirs (outs o) (dirs o) d0 (sl_dirs_nodup _ _ _ _)).
+          -- apply (seg_in_dirs fh fw on o); assumption.
+          -- rewrite (proj2 (cmp_on o d0 z dz d0 HoF HzF Hz (seg_in_dirs fh fw on o _ Hd0 Hs0))). apply Nat.eqb_refl.
+          -- intros b Hb Hib. rewrite (proj2 (cmp_on o d0 z dz b HoF HzF Hz Hb)) in Hib. apply Nat.eqb_eq in Hib. exact Hib.
+      + (* another cell of the loop *)
+        destruct (In_nth_error _ _ Hcs) as [i Hi].
+        destruct (cmp_F_index i c Hi) as [dc [a [da [E1 [E0 [Hst Ha]]]]]].
+        pose proof (nth_error_In _ _ E1) as HcF. pose proof (nth_error_In _ _ E0) as HaF.
+        destruct (cmp_F_all c dc HcF) as [Hdc [_ Hsc]]. destruct (cmp_F_all a da HaF) as [Hda [Hoa Hsa]].
+        assert (Hback : sg c (opposite da) = true) by (rewrite <- Hst; apply (seg_sym fh fw on a da Hoa Hda Hsa)).
+        assert (Hbd : In (opposite da) (dirs c)) by (apply (seg_in_dirs fh fw on c); [apply opposite_lt; exact Hda|exact Hback]).
+        assert (Hco : c <> o) by (intros ->; apply (proj2 cmp_cs_nodup); exact Hcs).
+        assert (Hprev : step_dir (fst c) (snd c) (opposite da) = a).
+        { change (stepc c (opposite da) = a). rewrite <- Hst. apply (step_back fh fw on a da Hda Hsa). }
+        assert (Hordc : ordc c = (ordc a + (if isg c then 1 else 0))%Z).
+        { rewrite (cmp_ordc_nth i c Hi), (cmp_ordc_prev i a Ha), (firstn_S_nth cs i c Hi), count_app.
+          unfold count. cbn [filter]. destruct (isg c); cbn [length]; lia. }
+        destruct c as [y x] eqn:Ec. unfold cell_sem. cbn [fst snd] in *.
+        rewrite Hnb. cbn [Z.eqb negb].
+        replace (Nat.eqb y (fst o) && Nat.eqb x (snd o)) with false.
+        2:{ symmetry. apply andb_false_iff. destruct (Nat.eqb_spec y (fst o)) as [Ey|]; [|left; reflexivity].
+            right. apply Nat.eqb_neq. intros Ex. apply Hco. rewrite (surjective_pairing o), <- Ey, <- Ex. reflexivity. }
+        fold pv. rewrite cmp_pv, Hv.
+        apply andb_true_iff. split; [apply andb_true_iff; split; apply Z.eqb_eq; change 1%Z with (Z.of_nat 1); f_equal|].
+        * apply (count_one_dirs (ins (y, x)) (dirs (y, x)) (opposite da) (sl_dirs_nodup _ _ _ _)); [exact Hbd| |].
+          -- rewrite (proj1 (cmp_on (y, x) dc a da (opposite da) HcF HaF Hst Hbd)). apply Nat.eqb_refl.
+          -- intros b Hb Hib. rewrite (proj1 (cmp_on (y, x) dc a da b HcF HaF Hst Hb)) in Hib. apply Nat.eqb_eq in Hib. exact Hib.
+        * apply (count_one_dirs (outs (y, x)) (dirs (y, x)) dc (sl_dirs_nodup _ _ _ _)).
+          -- apply (seg_in_dirs fh fw on (y, x)); assumption.
+          -- rewrite (proj2 (cmp_on (y, x) dc a da dc HcF HaF Hst (seg_in_dirs fh fw on (y, x) _ Hdc Hsc))). apply Nat.eqb_refl.
+          -- intros b Hb Hib. rewrite (proj2 (cmp_on (y, x) dc a da b HcF HaF Hst Hb)) in Hib. apply Nat.eqb_eq in Hib. exact Hib.
+        * assert (Hstepd : forall d (z : Z), In d (sl_dirs h w y x) -> (ordc a = ordc (y, x) - z)%Z ->
+                     negb (in_sem en h w y x d) || (sl_ov en w base (step_dir y x d) =? sl_ov en w base (y, x) - z)%Z = true).
+          { intros d z Hd Hz. destruct (in_sem en h w y x d) eqn:Ei; [|reflexivity]. cbn [negb orb].
+            change (ins (y, x) d = true) in Ei. rewrite (proj1 (cmp_on (y, x) dc a da d HcF HaF Hst Hd)) in Ei.
+            apply Nat.eqb_eq in Ei. subst d. rewrite Hprev. fold ov. rewrite !cmp_ov. apply Z.eqb_eq. exact Hz. }
+          pose proof (sl_is_gate_spec gs (y, x)) as Hisg. unfold sl_is_gate in Hisg. fold isg in Hisg.
+          destruct (sl_gate_id gs (y, x)) as [n|] eqn:Eid.
+          -- rewrite <- Hisg in Hordc. apply andb_true_iff. split.
+             ++ apply forallb_forall. intros d Hd. apply Hstepd; [exact Hd|lia].
+             ++ destruct (1 <=? n)%Z eqn:En; [|reflexivity]. apply Z.leb_le in En. cbn [negb orb].
+                fold ov. rewrite cmp_ov. apply Z.eqb_eq. apply (cmp_numbered (y, x) n Hc Hv Eid En).
+          -- rewrite <- Hisg in Hordc. apply forallb_forall. intros d Hd.
+             replace (sl_ov en w base (y, x)) with (sl_ov en w base (y, x) - 0)%Z by lia. apply Hstepd; [exact Hd|lia].
+    - (* off the loop *)
+      destruct c as [y x]. unfold cell_sem. fold pv. rewrite cmp_pv, Hv. cbn [fst snd negb].
+      rewrite (count_zero (in_sem en h w y x)) by (intros d Hd; apply (proj1 (cmp_off (y, x) d Hc Hv Hd))).
+      rewrite (count_zero (out_sem en h w y x)) by (intros d Hd; apply (proj2 (cmp_off (y, x) d Hc Hv Hd))).
+      cbn [Z.of_nat Z.eqb andb].
+      destruct (negb (at2 black w y x =? 0)%Z); [reflexivity|].
+      destruct (Nat.eqb y (fst o) && Nat.eqb x (snd o)); [reflexivity|].
+      assert (Hall : forall z, forallb (fun d => negb (in_sem en h w y x d) ||
+                        (sl_ov en w base (step_dir y x d) =? sl_ov en w base (y, x) - z)%Z) (sl_dirs h w y x) = true).
+      { intros z. apply forallb_forall. intros d Hd. change (in_sem en h w y x d) with (ins (y, x) d).
+        rewrite (proj1 (cmp_off (y, x) d Hc Hv Hd)). reflexivity. }
+      destruct (sl_gate_id gs (y, x)) as [n|].
+      + rewrite Hall. destruct (1 <=? n)%Z; reflexivity.
+      + apply forallb_forall. intros d Hd. change (in_sem en h w y x d) with (ins (y, x) d).
+        rewrite (proj1 (cmp_off (y, x) d Hc Hv Hd)). reflexivity.
+  Qed.
+  Lemma cmp_gate_in_cs c : onb' c -> isg c = true -> vis c = true -> In c cs.
+  Proof.
+    intros Hc Hg Hv. destruct (cmp_cover c Hc Hv) as [E|H]; [|exact H]. exfalso. subst c.
+    apply is_gate_cell_spec in Hg. destruct Hg as [k [Hk Hin]]. apply cell_in_In in Hin.
+    destruct WF as [_ _ Hno _ _]. exact (Hno k Hk Hin).
+  Qed.
+
+  Lemma cmp_aux : aux_sem en h w base gs = true.
+  Proof.
+    unfold aux_sem. apply forallb_forall. intros c0 Hc0. apply forallb_forall. intros c1 Hc1.
+    destruct (Nat.ltb (cidx w c0) (cidx w c1) && sl_is_gate gs c0 && sl_is_gate gs c1) eqn:Ec; [|reflexivity].
+    cbn [negb orb]. apply andb_prop in Ec. destruct Ec as [Ec Hg1]. apply andb_prop in Ec. destruct Ec as [Hlt Hg0].
+    apply Nat.ltb_lt in Hlt. rewrite sl_is_gate_spec in Hg0, Hg1.
+    fold pv ov. rewrite !cmp_pv, !cmp_ov.
+    destruct (vis c0) eqn:Hv0; [|reflexivity]. destruct (vis c1) eqn:Hv1; [|reflexivity]. cbn [andb negb orb].
+    assert (Ho0 : onb' c0) by (destruct c0; apply cells_in in Hc0; split; simpl; unfold h, w in Hc0; lia).
+    assert (Ho1 : onb' c1) by (destruct c1; apply cells_in in Hc1; split; simpl; unfold h, w in Hc1; lia).
+    destruct (In_nth_error _ _ (cmp_gate_in_cs c0 Ho0 Hg0 Hv0)) as [i0 Hi0].
+    destruct (In_nth_error _ _ (cmp_gate_in_cs c1 Ho1 Hg1 Hv1)) as [i1 Hi1].
+    rewrite (cmp_ordc_nth i0 c0 Hi0), (cmp_ordc_nth i1 c1 Hi1).
+    apply negb_true_iff. apply Z.eqb_neq.
+    destruct (lt_eq_lt_dec i0 i1) as [[Hl|He]|Hl].
+    - pose proof (count_firstn_strict isg cs i0 i1 c1 Hl Hi1 Hg1). lia.
+    - exfalso. subst i1. rewrite Hi0 in Hi1. inversion Hi1; subst c1. lia.
+    - pose proof (count_firstn_strict isg cs i1 i0 c0 Hl Hi0 Hg0). lia.
+  Qed.
+
+  Theorem slalom_complete :
+    in_bounds_from en base (repeat (DInt 0 (Z.of_nat G)) (h * w) ++ repeat DBool (h * w)) = true /\
+    forallb (holds no_graph en) (sl_constraints h w G base (fst o) (snd o) black gs) = true.
+  Proof.
+    split.
+    - rewrite CycleLemmas.in_bounds_from_app, CycleLemmas.in_bounds_from_bools, andb_true_r.
+      apply CycleLemmas.in_bounds_from_ints. intros k Hk.
+      destruct (Hlat (base + k) ltac:(lia)) as [_ E]. rewrite E. simpl.
+      replace (base + k - base) with k by lia. apply cmp_ordv_bounds.
+    - rewrite holds_sl_constraints.
+      apply andb_true_iff; split; [apply andb_true_iff; split; [apply andb_true_iff; split|]|].
+      + apply forallb_forall. intros k Hk. apply in_seq in Hk. apply Z.eqb_eq. change 1%Z with (Z.of_nat 1). f_equal.
+        rewrite <- (Hgates k ltac:(lia)). apply count_ext_in. intros c _. apply cmp_pv.
+      + rewrite <- surjective_pairing. fold pv. rewrite cmp_pv. exact Hvo.
+      + apply forallb_forall. intros c Hc. apply cmp_cell.
+        destruct c; apply cells_in in Hc; split; simpl; unfold h, w in Hc; lia.
+      + apply cmp_aux.
+  Qed.
+End Complete.
+
+(* ------------------------------------------------------------------------------------------------------ *)
+(* 3. the theorem                                                                                          *)
+
+(* what the rules say, piece by piece *)
+Lemma slalom_local_on_inv fh fw oy ox black gs on :
+  slalom_local_on (S fh) (S fw) oy ox black gs on = true ->
+  on_line (lattice (S fh) (S fw)) on (cix fw (oy, ox)) = true /\
+  (forall c, onb fh fw c -> at2 black (S fw) (fst c) (snd c) <> 0%Z ->
+             on_line (lattice (S fh) (S fw)) on (cix fw c) = false) /\
+  (forall k, k < n_gates gs ->
+     count (fun c => on_line (lattice (S fh) (S fw)) on (cix fw c)) (gate_cells gs k) = 1) /\
+  exists d0, d0 < 4 /\ seg (S fh) (S fw) on oy ox d0 = true /\
+    forall k, k < n_gates gs -> (1 <= gate_field gs k 4)%Z ->
+      exists c, nth_error (filter (is_gate_cell gs)
+                             (map fst (sl_walkd fh fw on (oy, ox) (S fh * S fw) (stepc (oy, ox) d0) d0)))
+                          (zn (gate_field gs k 4) - 1) = Some c /\ In c (gate_cells gs k).
+Proof.
+  unfold slalom_local_on. intros H.
+  apply andb_prop in H. destruct H as [H Hord]. apply andb_prop in H. destruct H as [H Hg].
+  apply andb_prop in H. destruct H as [H Hb]. apply andb_prop in H. destruct H as [_ Hv].
+  split; [exact Hv|]. split; [|split].
+  - intros c Hc Hne. rewrite forallb_forall in Hb. specialize (Hb c).
+    destruct c as [y x]. destruct Hc as [Hy Hx]. cbn [fst snd] in *.
+    specialize (Hb ltac:(apply cells_in; lia)). cbn [fst snd] in Hb.
+    apply orb_prop in Hb. destruct Hb as [Hb|Hb]; [apply Z.eqb_eq in Hb; contradiction|].
+    apply negb_true_iff in Hb. exact Hb.
+  - intros k Hk. rewrite forallb_forall in Hg. specialize (Hg k ltac:(apply in_seq; lia)).
+    apply andb_prop in Hg. destruct Hg as [Hg _]. apply Nat.eqb_eq in Hg. exact Hg.
+  - apply existsb_exists in Hord. destruct Hord as [d0 [Hd0 Hord]].
+    apply filter_In in Hd0. destruct Hd0 as [Hd0 Hs0]. exists d0.
+    split; [simpl in Hd0; lia|]. split; [exact Hs0|].
+    intros k Hk Hn. destruct (step_dir oy ox d0) as [y1 x1] eqn:Est.
+    rewrite forallb_forall in Hord. specialize (Hord k ltac:(apply in_seq; lia)). cbv zeta in Hord.
+    replace (gate_field gs k 4 <? 1)%Z with false in Hord by (symmetry; apply Z.ltb_ge; lia). cbn [orb] in Hord.
+    rewrite (sl_walkd_fst fh fw on (oy, ox) (S fh * S fw) (stepc (oy, ox) d0) d0). unfold stepc. cbn [fst snd]. rewrite Est.
+    cbn [fst snd].
+    match type of Hord with match ?t with _ => _ end = true => destruct t as [c|] eqn:E end; [|discriminate].
+    exists c. split; [exact E|]. apply cell_in_In. exact Hord.
+Qed.
+
+Theorem slalom_exact h w oy ox black gs st ans :
+  slalom_wf [[Z.of_nat h; Z.of_nat w]; [oy; ox]; black; gs] = true ->
+  solve_slalom_model [[Z.of_nat h; Z.of_nat w]; [oy; ox]; black; gs] = Ok st ->
+  ((exists en, model_of no_graph en st /\ reads st en (seq 0 (n_lattice_edges h w)) = ans)
+   <-> rules_slalom [[Z.of_nat h; Z.of_nat w]; [oy; ox]; black; gs] ans = true).
+Proof.
+  intros Hwf. destruct (slalom_wf_spec h w oy ox black gs Hwf) as [WF [Hoy0 Hox0]].
+  rewrite rules_slalom_local.
+  unfold solve_slalom_model.
+  change (sec [[Z.of_nat h; Z.of_nat w]; [oy; ox]; black; gs] 0) with [Z.of_nat h; Z.of_nat w].
+  change (sec [[Z.of_nat h; Z.of_nat w]; [oy; ox]; black; gs] 1) with [oy; ox].
+  change (sec [[Z.of_nat h; Z.of_nat w]; [oy; ox]; black; gs] 2) with black.
+  change (sec [[Z.of_nat h; Z.of_nat w]; [oy; ox]; black; gs] 3) with gs.
+  change (getz [Z.of_nat h; Z.of_nat w] 0) with (Z.of_nat h).
+  change (getz [Z.of_nat h; Z.of_nat w] 1) with (Z.of_nat w).
+  change (getz [oy; ox] 0) with oy. change (getz [oy; ox] 1) with ox.
+  destruct (sl_dims h w [[oy; ox]; black; gs]) as [-> ->].
+  destruct h as [|fh]; [intros H; discriminate H|].
+  destruct w as [|fw]; [rewrite orb_true_r; intros H; discriminate H|].
+  replace ((Z.of_nat (S fh) <? 1) || (Z.of_nat (S fw) <? 1))%Z with false
+    by (symmetry; apply orb_false_iff; split; apply Z.ltb_ge; lia).
+  destruct (sl_outside _); [discriminate|].
+  replace (S fh - 1) with fh by lia. replace (S fw - 1) with fw by lia.
+  destruct (sl_cycle fh fw) as [[st1 res]|e] eqn:Hcall; [|discriminate].
+  set (G := n_gates gs). set (base := next_id st1).
+  unfold int_array. replace (Z.of_nat G <? 0)%Z with false by (symmetry; apply Z.ltb_ge; lia).
+  rewrite int_vars_spec. unfold bool_array. rewrite bool_vars_spec. cbn [vars keys Program.cons].
+  destruct (_ || _); [discriminate|].
+  intros Hst. inversion Hst; subst st. clear Hst.
+  set (o := (zn oy, zn ox)) in *.
+  replace (n_lattice_edges (S fh) (S fw)) with (frame_n fh fw)
+    by (unfold n_lattice_edges, frame_n; replace (S fw - 1) with fw by lia; replace (S fh - 1) with fh by lia; reflexivity).
+  apply (sl_compose fh fw (repeat (DInt 0 (Z.of_nat G)) (S fh * S fw) ++ repeat DBool (S fh * S fw))
+             (sl_constraints (S fh) (S fw) G base (zn oy) (zn ox) black gs)
+             (slalom_local (S fh) (S fw) (zn oy) (zn ox) black gs) st1 res _ ans Hcall).
+  - cbn [ensure vars]. rewrite <- app_assoc. reflexivity.
+  - cbn [ensure Program.cons]. reflexivity.
+  - (* soundness *)
+    intros en Hloop Hb Hx.
+    set (a := map (fun i => b2z (eb en i)) (seq 0 (frame_n fh fw))) in *.
+    rewrite holds_sl_constraints in Hx.
+    apply andb_prop in Hx. destruct Hx as [Hx _]. apply andb_prop in Hx. destruct Hx as [Hx Hcells].
+    apply andb_prop in Hx. destruct Hx as [Hcnt Hpo].
+    rewrite in_bounds_from_app, in_bounds_from_bools, andb_true_r in Hb.
+    unfold slalom_local.
+    apply (slalom_sound fh fw G base o black gs en (fun k => isb (getz a k))).
+    + intros k Hk. unfold a. rewrite getz_map_seq by exact Hk. rewrite b2z_isb. reflexivity.
+    + exact Hloop.
+    + reflexivity.
+    + exact WF.
+    + intros k Hk. rewrite forallb_forall in Hcnt. specialize (Hcnt k ltac:(apply in_seq; lia)).
+      apply Z.eqb_eq in Hcnt. lia.
+    + exact Hpo.
+    + intros c Hc. rewrite forallb_forall in Hcells. apply Hcells. destruct c as [y x]. destruct Hc as [Hy Hx'].
+      apply cells_in. cbn [fst snd] in *. lia.
+    + intros c Hc. unfold sl_ov.
+      apply (proj1 (in_bounds_from_ints en base (S fh * S fw) 0 (Z.of_nat G)) Hb (cidx (S fw) c)).
+      destruct c as [y x]. destruct Hc as [Hy Hx']. apply cidx_lt; assumption.
+  - (* completeness *)
+    intros a Hlen H01 Hloop Hloc. unfold slalom_local in Hloc.
+    destruct (slalom_local_on_inv fh fw (zn oy) (zn ox) black gs _ Hloc) as [Hvo [Hblack [Hgates [d0 [Hd0 [Hs0 Hord]]]]]].
+    exists (cmp_dirv fh fw o (fun k => isb (getz a k)) d0), (cmp_later fh fw base o gs (fun k => isb (getz a k)) d0).
+    intros en Hlow Hdir Hlat.
+    apply (slalom_complete fh fw G base o black gs (fun k => isb (getz a k)) d0); try assumption; reflexivity.
+Qed.
+
+(* ------------------------------------------------------------------------------------------------------ *)
+(* 4. the premise of slalom_exact is satisfiable: on a board in the format the model (like the Python) only needs a
+      black grid with an entry for every cell                                                               *)
+Lemma slalom_wf_not_outside h w oy ox black gs :
+  slalom_wf [[Z.of_nat h; Z.of_nat w]; [oy; ox]; black; gs] = true ->
+  sl_outside [[Z.of_nat h; Z.of_nat w]; [oy; ox]; black; gs] = false.
+Proof.
+  unfold slalom_wf, sl_outside.
+  change (sec [[Z.of_nat h; Z.of_nat w]; [oy; ox]; black; gs] 1) with [oy; ox].
+  change (sec [[Z.of_nat h; Z.of_nat w]; [oy; ox]; black; gs] 3) with gs.
+  change (getz [oy; ox] 0) with oy. change (getz [oy; ox] 1) with ox.
+  intros H. apply andb_prop in H. destruct H as [H Hg]. apply andb_prop in H. destruct H as [Ho _].
+  apply andb_prop in Ho. destruct Ho as [Ho _]. apply andb_prop in Ho. destruct Ho as [Ho Ho3].
+  apply andb_prop in Ho. destruct Ho as [Ho1 _]. apply Z.leb_le in Ho1. apply Z.leb_le in Ho3.
+  apply orb_false_iff. split.
+  - apply orb_false_iff. split; apply Z.ltb_ge; assumption.
+  - destruct (existsb _ _) eqn:E; [|reflexivity]. exfalso.
+    apply existsb_exists in E. destruct E as [k [Hk E]]. rewrite forallb_forall in Hg. specialize (Hg k Hk).
+    apply andb_prop in Hg. destruct Hg as [Hg _]. apply andb_prop in Hg. destruct Hg as [Hg _].
+    apply andb_prop in Hg. destruct Hg as [Hb _].
+    apply andb_prop in Hb. destruct Hb as [Hb Hd01]. apply andb_prop in Hb. destruct Hb as [Hb _].
+    apply andb_prop in Hb. destruct Hb as [Hy0 Hx0]. apply Z.leb_le in Hy0. apply Z.leb_le in Hx0.
+    apply orb_prop in E. destruct E as [E|E].
+    + apply orb_prop in E. destruct E as [E|E]; apply Z.ltb_lt in E; lia.
+    + rewrite Hd01 in E. discriminate.
+Qed.
+
+Theorem slalom_model_defined h w oy ox black gs :
+  slalom_wf [[Z.of_nat h; Z.of_nat w]; [oy; ox]; black; gs] = true ->
+  ((exists st, solve_slalom_model [[Z.of_nat h; Z.of_nat w]; [oy; ox]; black; gs] = Ok st) <-> h * w <= length black).
+Proof.
+  intros Hwf. destruct (slalom_wf_spec h w oy ox black gs Hwf) as [WF [Hoy0 Hox0]].
+  pose proof (slalom_wf_not_outside h w oy ox black gs Hwf) as Hout.
+  unfold solve_slalom_model. rewrite Hout.
+  change (sec [[Z.of_nat h; Z.of_nat w]; [oy; ox]; black; gs] 0) with [Z.of_nat h; Z.of_nat w].
+  change (sec [[Z.of_nat h; Z.of_nat w]; [oy; ox]; black; gs] 1) with [oy; ox].
+  change (sec [[Z.of_nat h; Z.of_nat w]; [oy; ox]; black; gs] 2) with black.
+  change (sec [[Z.of_nat h; Z.of_nat w]; [oy; ox]; black; gs] 3) with gs.
+  change (getz [Z.of_nat h; Z.of_nat w] 0) with (Z.of_nat h).
+  change (getz [Z.of_nat h; Z.of_nat w] 1) with (Z.of_nat w).
+  change (getz [oy; ox] 0) with oy. change (getz [oy; ox] 1) with ox.
+  destruct (sl_dims h w [[oy; ox]; black; gs]) as [-> ->].
+  destruct WF as [[Hoy Hox] Honb _ _ _]. cbn [fst snd] in Hoy, Hox.
+  destruct h as [|fh]; [lia|]. destruct w as [|fw]; [lia|].
+  replace ((Z.of_nat (S fh) <? 1) || (Z.of_nat (S fw) <? 1))%Z with false
+    by (symmetry; apply orb_false_iff; split; apply Z.ltb_ge; lia).
+  replace (S fh - 1) with fh by lia. replace (S fw - 1) with fw by lia.
+  destruct (sl_cycle_shape fh fw) as [st1 [Hc _]]. rewrite Hc.
+  unfold int_array. replace (Z.of_nat (n_gates gs) <? 0)%Z with false by (symmetry; apply Z.ltb_ge; lia).
+  rewrite int_vars_spec. unfold bool_array. rewrite bool_vars_spec.
+  replace (existsb _ (seq 0 (n_gates gs))) with false.
+  2:{ symmetry. destruct (existsb _ (seq 0 (n_gates gs))) eqn:E; [|reflexivity]. exfalso.
+      apply existsb_exists in E. destruct E as [k [Hk E]]. apply in_seq in Hk.
+      apply existsb_exists in E. destruct E as [c [Hc' E]]. destruct (Honb k c ltac:(lia) Hc') as [H1 H2].
+      apply negb_true_iff in E. apply andb_false_iff in E. destruct E as [E|E]; apply Nat.ltb_ge in E; lia. }
+  replace (Nat.ltb (zn oy) (S fh) && Nat.ltb (zn ox) (S fw)) with true
+    by (symmetry; apply andb_true_iff; split; apply Nat.ltb_lt; assumption).
+  cbn [negb orb].
+  destruct (Nat.ltb_spec (length black) (S fh * S fw)).
+  - split; [intros [st H']; discriminate|lia].
+  - split; [intros _; lia|intros _; eexists; reflexivity].
+Qed.
+
+(* the 3 x 3 board with a black centre, the start in a corner and four one-cell gates numbered 1 .. 4 clockwise is in the
+   format, the model is defined on it, the ring around the centre obeys the rules, and the ring does not when two numbers are
+   exchanged; a gate whose end is neither black nor the board edge is outside the format *)
+Example slalom_wf_ring :
+  let pb := [[3; 3]; [0; 0]; [0; 0; 0; 0; 1; 0; 0; 0; 0];
+             [0; 1; 1; 1; 1;  1; 2; 0; 1; 2;  2; 1; 1; 1; 3;  1; 0; 0; 1; 4]]%Z in
+  slalom_wf pb = true /\
+  (exists st, solve_slalom_model pb = Ok st) /\
+  rules_slalom pb [1; 1; 0; 0; 1; 1; 1; 0; 1; 1; 0; 1]%Z = true /\
+  rules_slalom [[3; 3]; [0; 0]; [0; 0; 0; 0; 1; 0; 0; 0; 0];
+                [0; 1; 1; 1; 1;  1; 2; 0; 1; 3;  2; 1; 1; 1; 2;  1; 0; 0; 1; 4]]%Z
+               [1; 1; 0; 0; 1; 1; 1; 0; 1; 1; 0; 1]%Z = false /\
+  slalom_wf [[2; 2]; [1; 1]; [0; 0; 0; 0]; [0; 0; 0; 1; -1]]%Z = false.
+Proof.
+  cbv zeta. split; [vm_compute; reflexivity|]. split.
+  - apply (slalom_model_defined 3 3 0 0 [0; 0; 0; 0; 1; 0; 0; 0; 0]%Z
+             [0; 1; 1; 1; 1;  1; 2; 0; 1; 2;  2; 1; 1; 1; 3;  1; 0; 0; 1; 4]%Z); [vm_compute; reflexivity|simpl; lia].
+  - vm_compute. repeat split.
+Qed.
+
+(* the hypothesis slalom_wf cannot be dropped: solve_slalom does not post the "straight through" half of rule 3 - it
+   relies on the black cells at the two ends of every gate.  On the 2 x 2 board with the start at (1, 1), no black cell
+   and a one-cell horizontal gate at (0, 0) whose right end is open, the posted program accepts the square loop, which
+   turns inside the gate cell and so breaks rule 3. *)
+Example slalom_wf_needed :
+  let pb := [[2; 2]; [1; 1]; [0; 0; 0; 0]; [0; 0; 0; 1; -1]]%Z in
+  exists st en, solve_slalom_model pb = Ok st /\ model_of no_graph en st /\
+                rules_slalom pb (reads st en (seq 0 4)) = false.
+Proof.
+  cbv zeta.
+  set (bs := [true; true; true; true; false; true; true; false; true; true; true; true; false; false; false; false;
+              false; true; false; false; false; false; false; false; true; true; true; true]).
+  set (zs := [0; 0; 0; 0; 0; 0; 0; 0; 0; 0; 0; 0; 1; 0; 2; 1; 0; 0; 0; 0; 1; 1; 0; 0; 0; 0; 0; 0]%Z).
+  destruct (solve_slalom_model [[2; 2]; [1; 1]; [0; 0; 0; 0]; [0; 0; 0; 1; -1]]%Z) as [st|e] eqn:E;
+    [|vm_compute in E; discriminate].
+  exists st, {| eb := fun i => nth i bs false; ei := fun i => nth i zs 0%Z |}.
+  split; [reflexivity|].
+  assert (Est : Ok st = solve_slalom_model [[2; 2]; [1; 1]; [0; 0; 0; 0]; [0; 0; 0; 1; -1]]%Z) by (symmetry; exact E).
+  vm_compute in Est. inversion Est; subst st. clear.
+  split; [split|]; vm_compute; reflexivity.
+Qed.
